@@ -1226,3 +1226,147 @@ Qed.
 
 Lemma recast_not_done {A B} (o : outcome A) : is_done (@recast A B o) = false.
 Proof. destruct o; reflexivity. Qed.
+
+(* ------------------------------------------------------------------ resolve *)
+
+Definition absent (s : state) (F : list string) : Prop :=
+  forall f, f ∈ F -> f <> "" /\ st_u2v s !! f = None.
+
+Lemma new_version_u2v_other fx s p b a f x :
+  st_u2v s !! x = None -> x <> (match a with Some a' => a' | None => f end) ->
+  st_u2v (fst (do_new_version fx s p b a f)) !! x = None.
+Proof.
+  intros Hx Ne. unfold do_new_version. destruct (find_node s p) as [[[[i r] v] n]|]; auto.
+  destruct (negb (n_locked n)); auto.
+  match goal with |- context [match ?o with Some _ => _ | None => (s, Fail) end] => destruct o end; auto.
+  destruct (fx_assign_check fx && assign_refused s a); auto.
+  unfold new_uuid. simpl. now rewrite lookup_insert_ne by auto.
+Qed.
+
+Lemma commit_u2v s u : st_u2v (fst (do_commit s u)) = st_u2v s.
+Proof.
+  unfold do_commit. destruct (find_node s u) as [[[[i r] v] n]|]; auto. destruct (n_locked n); auto.
+Qed.
+
+Lemma inv_resolve_extend olds conf : forall s ext,
+  RepoInv s -> NoDup (List.map snd conf) -> absent s (List.map snd conf) ->
+  RepoInv (fst (resolve_extend repaired s olds ext conf)) /\
+  (forall x, st_u2v s !! x = None -> x ∉ List.map snd conf ->
+             st_u2v (fst (resolve_extend repaired s olds ext conf)) !! x = None).
+Proof.
+  induction conf as [|[k f] conf IH]; intros s ext I ND A; simpl.
+  - auto.
+  - simpl in ND. apply NoDup_cons in ND as [Nf ND].
+    assert (A' : absent s (List.map snd conf)).
+    { intros g Hg. apply A. simpl. apply elem_of_cons. auto. }
+    assert (Hskip : RepoInv (fst (resolve_extend repaired s olds ext conf)) /\
+              (forall x, st_u2v s !! x = None -> x ∉ f :: List.map snd conf ->
+                         st_u2v (fst (resolve_extend repaired s olds ext conf)) !! x = None)).
+    { destruct (IH s ext I ND A') as [I1 U1]. split; auto. intros x Hx Nx.
+      apply not_elem_of_cons in Nx as [_ Nx]. auto. }
+    destruct (nth_error olds k) as [old|]; [|exact Hskip].
+    destruct (extension_of ext old); [exact Hskip|].
+    destruct (A f) as [Hne Hcu]; [simpl; apply elem_of_cons; auto|].
+    pose proof (inv_new_version s old ("conflict-" ++ old) None f I (conflict_branch_not_master old)
+                  (fun _ => conj Hne Hcu)) as I1.
+    pose proof (new_version_u2v_other repaired s old ("conflict-" ++ old) None f) as U1.
+    destruct (do_new_version repaired s old ("conflict-" ++ old) None f) as [s1 o]. simpl in I1, U1.
+    assert (A1 : absent s1 (List.map snd conf)).
+    { intros g Hg. destruct (A' g Hg) as [G1 G2]. split; auto. apply U1; auto. intros ->. contradiction. }
+    assert (Hgo : forall ext', RepoInv (fst (resolve_extend repaired s1 olds ext' conf)) /\
+              (forall x, st_u2v s !! x = None -> x ∉ f :: List.map snd conf ->
+                         st_u2v (fst (resolve_extend repaired s1 olds ext' conf)) !! x = None)).
+    { intros ext'. destruct (IH s1 ext' I1 ND A1) as [I2 U2]. split; auto. intros x Hx Nx.
+      apply not_elem_of_cons in Nx as [Nx1 Nx2]. apply U2; auto. }
+    destruct o; apply Hgo.
+Qed.
+
+Definition data_fresh (data : list (string * list (nat * string))) : list string :=
+  flat_map (fun d => List.map snd (snd d)) data.
+
+Lemma inv_resolve_data u olds data : forall s ext,
+  RepoInv s -> NoDup (data_fresh data) -> absent s (data_fresh data) ->
+  RepoInv (fst (resolve_data repaired s u olds ext data)) /\
+  (forall x, st_u2v s !! x = None -> x ∉ data_fresh data ->
+             st_u2v (fst (resolve_data repaired s u olds ext data)) !! x = None).
+Proof.
+  induction data as [|[name conf] data IH]; intros s ext I ND A; simpl.
+  - auto.
+  - unfold data_fresh in ND, A. simpl in ND, A. apply NoDup_app in ND as (ND1 & Hdisj & ND2).
+    destruct (repo_by_uuid s u) as [r|]; [|auto].
+    destruct (in_list name (r_data r)); [|auto].
+    assert (A1 : absent s (List.map snd conf)) by (intros g Hg; apply A, elem_of_app; auto).
+    destruct (inv_resolve_extend olds conf s ext I ND1 A1) as [I1 U1].
+    destruct (resolve_extend repaired s olds ext conf) as [s1 ext1]. simpl in I1, U1.
+    assert (A2 : absent s1 (data_fresh data)).
+    { intros g Hg. destruct (A g) as [G1 G2]; [apply elem_of_app; auto|]. split; auto.
+      apply U1; auto. intros Hin. apply (Hdisj g Hin Hg). }
+    destruct (IH s1 ext1 I1 ND2 A2) as [I2 U2]. split; auto.
+    intros x Hx Nx. unfold data_fresh in Nx. simpl in Nx. apply not_elem_of_app in Nx as [Nx1 Nx2]. auto.
+Qed.
+
+Lemma inv_commit_extensions olds : forall news s, RepoInv s ->
+  RepoInv (fst (commit_extensions s olds news)) /\
+  st_u2v (fst (commit_extensions s olds news)) = st_u2v s.
+Proof.
+  induction olds as [|o olds IH]; intros [|n news] s I; simpl; auto.
+  destruct (String.eqb o n); [apply IH; auto|].
+  pose proof (inv_commit s n I) as I1. pose proof (commit_u2v s n) as U1.
+  destruct (do_commit s n) as [s1 [[]| | |]]; simpl in *; auto.
+  destruct (IH news s1 I1) as [I2 U2]. split; auto. congruence.
+Qed.
+
+Lemma inv_h_resolve s x data ps f : RepoInv s -> oracle_ok s (RResolve x data ps f) ->
+  RepoInv (fst (h_resolve repaired s x data ps f)).
+Proof.
+  intros I [ND FA]. simpl in ND, FA. fold (data_fresh data) in ND, FA.
+  unfold h_resolve. destruct (repo_gate s x) as [u| | |]; try exact I.
+  destruct data as [|d data']; [exact I|]. set (data := d :: data') in *.
+  destruct (length ps <? 2)%nat; [exact I|].
+  destruct (match_all s ps) as [olds| | |]; try exact I.
+  match goal with |- context [if ?b then _ else _] => destruct b end; [exact I|].
+  apply NoDup_app in ND as (ND1 & Hdisj & _).
+  assert (A : absent s (data_fresh data)).
+  { intros g Hg. rewrite Forall_forall in FA. apply fresh_ok_parts, FA, elem_of_app. auto. }
+  destruct (inv_resolve_data u olds data s [] I ND1 A) as [I1 U1].
+  destruct (resolve_data repaired s u olds [] data) as [s1 [ext|]]; simpl in I1, U1; [|exact I1].
+  match goal with |- context [commit_extensions s1 olds ?n] => set (news := n) end.
+  destruct (inv_commit_extensions olds news s1 I1) as [I2 U2].
+  destruct (commit_extensions s1 olds news) as [s2 [|]]; simpl in I2, U2; [|exact I2].
+  rewrite Forall_forall in FA. destruct (fresh_ok_parts s f) as [Hne Hcu]; [apply FA, elem_of_app; right; now apply elem_of_list_singleton|].
+  apply inv_merge; auto. rewrite U2. apply U1; auto.
+  intros Hin. apply (Hdisj f Hin). now apply elem_of_list_singleton.
+Qed.
+
+(* ------------------------------------------------------------------ every request *)
+
+Lemma oracle_single s r f : fresh_of r = [f] -> oracle_ok s r -> fresh_ok s f.
+Proof. intros E [_ F]. rewrite E in F. now inversion F. Qed.
+
+Theorem inv_step s r : RepoInv s -> oracle_ok s r -> RepoInv (fst (step repaired s r)).
+Proof.
+  intros I O. destruct r; simpl.
+  - apply inv_new_repo; auto. intros _. eapply oracle_single; [|exact O]; reflexivity.
+  - now apply inv_h_commit.
+  - apply inv_h_new_version; auto. eapply oracle_single; [|exact O]; reflexivity.
+  - apply inv_h_branch; auto. eapply oracle_single; [|exact O]; reflexivity.
+  - now apply inv_h_tag.
+  - apply inv_h_merge; auto. eapply oracle_single; [|exact O]; reflexivity.
+  - now apply inv_h_resolve.
+  - exact I.
+  - exact I.
+  - exact I.
+  - now apply inv_h_new_data.
+  - unfold h_rpc. destruct (matching s u); try exact I. now apply inv_rename_data.
+  - unfold h_rpc. destruct (matching s u); try exact I. now apply inv_delete_data.
+  - unfold h_rpc. destruct (matching s u); try exact I. now apply inv_delete_repo.
+Qed.
+
+Theorem inv_run rs : forall s, RepoInv s -> oracles_ok repaired s rs -> RepoInv (run repaired s rs).
+Proof.
+  induction rs as [|r rs IH]; intros s I O; simpl; auto.
+  destruct O as [O1 O2]. apply IH; auto. now apply inv_step.
+Qed.
+
+Corollary inv_reachable rs : oracles_ok repaired init rs -> RepoInv (run repaired init rs).
+Proof. apply inv_run, inv_init. Qed.
